@@ -298,7 +298,8 @@ pub fn options(t: &mut Tape, pool_hosts: &[(String, String)], cfg: &OptCfg, exce
             11 => opts.push("important".into()),
             12 => {
                 if cfg.allow_tag && (cfg.allow_unsupported_tag_combos || !has_modifier) {
-                    opts.push(format!("tag={}", t.choose(TAGS)));
+                    // (1 in 12: the legal empty spelling `tag=`, a tag named "")
+                    if t.chance(1, 12) { opts.push("tag=".into()); } else { opts.push(format!("tag={}", t.choose(TAGS))); }
                     has_tag = true;
                 }
             }
@@ -322,7 +323,8 @@ pub fn options(t: &mut Tape, pool_hosts: &[(String, String)], cfg: &OptCfg, exce
                         }
                         3..=4 => {
                             if t.chance(1, 5) {
-                                opts.push("csp".into());
+                                // blanket spelling, with or without an explicit empty value
+                                opts.push(if t.chance(1, 3) { "csp=".into() } else { "csp".into() });
                             } else {
                                 opts.push(format!("csp={}", t.choose(CSP_VALUES)));
                             }
@@ -759,7 +761,8 @@ pub fn fuse_case(t: &mut Tape) -> NetCase {
         }
         let tagged = t.chance(1, 4);
         if tagged {
-            opts.push(format!("tag={}", t.choose(TAGS)));
+            // (1 in 8: the empty tag, spelled `tag=`)
+            if t.chance(1, 8) { opts.push("tag=".into()); } else { opts.push(format!("tag={}", t.choose(TAGS))); }
         }
         // tag + redirect is documented as unsupported: never combined
         if t.chance(1, 10) && !tagged {
